@@ -84,7 +84,10 @@ def main():
                 continue
             c2 = vlib.Check("SELFTEST", "quick", 0)
             c2.known = []
-            vlib.validate_runs(c2, [c], spec, cfg, what="corrupted")
+            try:
+                vlib.validate_runs(c2, [c], spec, cfg, what="corrupted")
+            except vlib.Broken:
+                c2.violations.append(("err", "TLC could not evaluate the corrupted history (counts as not accepted)", ""))
             for _, _, rp in c2.violations:
                 try:
                     os.remove(rp)
